@@ -15,7 +15,6 @@
 package ast
 
 import (
-	"fmt"
 	"github.com/hyperjumptech/grule-rule-engine/ast/unique"
 	"github.com/hyperjumptech/grule-rule-engine/logger"
 	"github.com/hyperjumptech/grule-rule-engine/pkg"
@@ -174,11 +173,10 @@ func (workingMem *WorkingMemory) Clone(cloneTable *pkg.CloneTable) (*WorkingMemo
 	if workingMem.expressionSnapshotMap != nil {
 		AstLog.Debugf("Cloning %d expressionSnapshotMap entries", len(workingMem.expressionSnapshotMap))
 		for k, expr := range workingMem.expressionSnapshotMap {
+			// a node that no rule entry reaches (left behind by a rejected resource or an overwritten
+			// tomb-stone) is not on the clone table: it is garbage and is not cloned.
 			if cloneTable.IsCloned(expr.AstID) {
 				clone.expressionSnapshotMap[k] = cloneTable.Records[expr.AstID].CloneInstance.(*Expression)
-			} else {
-
-				return nil, fmt.Errorf("expression  %s is not on the clone table - %s", expr.GrlText, expr.GetSnapshot())
 			}
 		}
 	}
@@ -188,9 +186,6 @@ func (workingMem *WorkingMemory) Clone(cloneTable *pkg.CloneTable) (*WorkingMemo
 		for k, exprAtm := range workingMem.expressionAtomSnapshotMap {
 			if cloneTable.IsCloned(exprAtm.AstID) {
 				clone.expressionAtomSnapshotMap[k] = cloneTable.Records[exprAtm.AstID].CloneInstance.(*ExpressionAtom)
-			} else {
-
-				return nil, fmt.Errorf("expression atom %s is not on the clone table. ASTID %s", exprAtm.GrlText, exprAtm.AstID)
 			}
 		}
 	}
@@ -200,9 +195,6 @@ func (workingMem *WorkingMemory) Clone(cloneTable *pkg.CloneTable) (*WorkingMemo
 		for key, variable := range workingMem.variableSnapshotMap {
 			if cloneTable.IsCloned(variable.AstID) {
 				clone.variableSnapshotMap[key] = cloneTable.Records[variable.AstID].CloneInstance.(*Variable)
-			} else {
-
-				return nil, fmt.Errorf("variable %s is not on the clone table", variable.GrlText)
 			}
 		}
 	}
@@ -212,18 +204,12 @@ func (workingMem *WorkingMemory) Clone(cloneTable *pkg.CloneTable) (*WorkingMemo
 		for key, exprArr := range workingMem.expressionVariableMap {
 			if cloneTable.IsCloned(key.AstID) {
 				clonedVari := cloneTable.Records[key.AstID].CloneInstance.(*Variable)
-				clone.expressionVariableMap[clonedVari] = make([]*Expression, len(exprArr))
-				for k2, expr := range exprArr {
+				clone.expressionVariableMap[clonedVari] = make([]*Expression, 0, len(exprArr))
+				for _, expr := range exprArr {
 					if cloneTable.IsCloned(expr.AstID) {
-						clone.expressionVariableMap[clonedVari][k2] = cloneTable.Records[expr.AstID].CloneInstance.(*Expression)
-					} else {
-
-						return nil, fmt.Errorf("expression %s is not on the clone table", expr.GrlText)
+						clone.expressionVariableMap[clonedVari] = append(clone.expressionVariableMap[clonedVari], cloneTable.Records[expr.AstID].CloneInstance.(*Expression))
 					}
 				}
-			} else {
-
-				return nil, fmt.Errorf("variable %s is not on the clone table", key.GrlText)
 			}
 		}
 	}
@@ -233,29 +219,19 @@ func (workingMem *WorkingMemory) Clone(cloneTable *pkg.CloneTable) (*WorkingMemo
 		for key, exprAtmArr := range workingMem.expressionAtomVariableMap {
 			if cloneTable.IsCloned(key.AstID) {
 				clonedVari := cloneTable.Records[key.AstID].CloneInstance.(*Variable)
-				clone.expressionAtomVariableMap[clonedVari] = make([]*ExpressionAtom, len(exprAtmArr))
-				for k2, expr := range exprAtmArr {
+				clone.expressionAtomVariableMap[clonedVari] = make([]*ExpressionAtom, 0, len(exprAtmArr))
+				for _, expr := range exprAtmArr {
 					if cloneTable.IsCloned(expr.AstID) {
-						clone.expressionAtomVariableMap[clonedVari][k2] = cloneTable.Records[expr.AstID].CloneInstance.(*ExpressionAtom)
-					} else {
-
-						return nil, fmt.Errorf("expression atom %s is not on the clone table", expr.GrlText)
+						clone.expressionAtomVariableMap[clonedVari] = append(clone.expressionAtomVariableMap[clonedVari], cloneTable.Records[expr.AstID].CloneInstance.(*ExpressionAtom))
 					}
 				}
-			} else {
-
-				return nil, fmt.Errorf("variable %s is not on the clone table", key.GrlText)
 			}
 		}
 	}
 
-	if workingMem.Equals(clone) {
-		clone.DebugContent()
+	clone.DebugContent()
 
-		return clone, nil
-	}
-
-	return nil, fmt.Errorf("clone not equals the origin")
+	return clone, nil
 }
 
 // IndexVariables will index all expression and expression atoms that contains a speciffic variable name
